@@ -328,10 +328,22 @@ type faultPlan struct {
 	deadCh  chan struct{}
 	fired   []string
 	kinds   string // "kube", "storage", "both"
+	forceSite string // setup only: fail deterministically at the first call of this site
+	onlySite  string // restrict symbolic faults to this site
 }
 
 func (f *faultPlan) fail(site string) bool {
 	if f == nil || f.budget <= 0 {
+		return false
+	}
+	if f.forceSite != "" {
+		if site == f.forceSite {
+			f.budget--
+			return true
+		}
+		return false
+	}
+	if f.onlySite != "" && site != f.onlySite {
 		return false
 	}
 	if strings.HasPrefix(site, "kube.") || strings.HasPrefix(site, "waiter.") {
